@@ -21,7 +21,7 @@ RULE = ('Reachable removal-enabled states (histories of 1-12 calls; reciprocal a
         'isolated node or a nested attribute value.')
 ASSUMPTIONS = ['e > t in the generated histories']
 TECHNIQUE = 'model-based PBT for presence; mutation-based isolation test; invariant checks on the converted graph'
-BUDGET = {'quick': {'cases': 8000, 'seconds': 45}, 'thorough': {'cases': 120000, 'seconds': 540}}
+BUDGET = {'quick': {'cases': 8000, 'seconds': 45}, 'thorough': {'cases': 300000, 'seconds': 540}}
 KINDS = ['add', 'add', 'add', 'add', 'add', 'add_from', 'path', 'cycle', 'node', 'node', 'nodes_from', 'recip']
 
 GATTR = st.dictionaries(st.sampled_from(['name2', 'meta', 'tags']), gen.ATTR_VALUES, max_size=2)
